@@ -47,6 +47,11 @@ pub fn oligo(seed: u64, n: usize, maxlen: usize, dir: &str) {
     let mut rng = Rng::new(seed);
     for k in 1..=8usize {
         let mut recs = with_variants(&mut rng, n, maxlen);
+        // one very long record for small k (tens of thousands of windows: tiny normalised values, large counts)
+        if k <= 3 {
+            let big: Vec<u8> = (0..40_000).map(|x| if x % 9973 == 5 { b'N' } else { *rng.pick(b"ACGTacgtu") }).collect();
+            recs.push((big, false));
+        }
         // exact repeats of earlier records (adjacent and far apart) and several records too short for any k-mer:
         // anything that caches or shares per-sequence work between workers must still give every record its own row
         let base = recs.len();
